@@ -117,6 +117,86 @@ def c_order(ctx, it, cfg):
         ctx.prove('distribution-updated-with-the-same-state', calls[5][2] is xnew)
 
 
+BALANCE_FIELDS = ['time', 'temperature', 'composition', 'precipitateDensity', 'Ravg', 'ARavg', 'volFrac', 'fconc']
+
+
+@REG.contract('rest-of-the-step-leaves-the-balance-untouched', [KB + ':PrecipitateBase._calcNucleationRate', KE + ':PrecipitateModel._growthRateMulti',
+              KE + ':PrecipitateModel._growthRateBinary'], configs=[dict(name='P=%d,E=%d' % (P, E), P=P, E=E) for P, E in ((1, 1), (2, 2))], max_paths=400)
+def c_rest(ctx, it, cfg):
+    """between the mass balance and the recording of the step the real nucleation and growth routines run on the same one-row record: they must not
+    modify what the balance computed (matrix composition, volume fraction, solute in precipitates, density, mean radius), nor the history"""
+    P, E = cfg['P'], cfg['E']
+    m, pd, n = mk_kwn(ctx, it, P, E)
+    Y = mk_slice(ctx, it, P, E)
+    seen = []
+
+    class Nuc(object):
+        """kawin.precipitation.NucleationRate as its caller sees it: arbitrary values (C14 proves what they are)"""
+        def volumetricDrivingForce(self, therm, x, T, prm, ar, removeCache=False):
+            seen.append(('dg', x))
+            return real(ctx, 'chem%d' % len(seen)), real(ctx, 'volDG%d' % len(seen)), NP.array([real(ctx, 'beta_c%d_%d' % (len(seen), e)) for e in range(E)])
+
+        def nucleationBarrier(self, dG, prm, ar):
+            return real(ctx, 'Rcrit%d' % len(seen), lambda v: v >= 0), real(ctx, 'Gcrit%d' % len(seen), lambda v: v >= 0)
+
+        def _beta(self, *a, **k):
+            return real(ctx, 'beta%d' % len(seen), lambda v: v >= 0)
+        betaBinary1 = betaBinary2 = betaMulti = _beta
+
+        def zeldovich(self, T, R, prm):
+            return real(ctx, 'Z%d' % len(seen), lambda v: v >= 0)
+
+        def incubationTime(self, *a):
+            return real(ctx, 'tau%d' % len(seen), lambda v: v >= 0)
+        incubationTimeNonIsothermal = incubationTime
+
+        def nucleationRate(self, *a, **k):
+            return real(ctx, 'rate%d' % len(seen), lambda v: v >= 0)
+
+        def nucleationRadius(self, T, R, prm):
+            return real(ctx, 'Rnuc%d' % len(seen), lambda v: v >= 0)
+    it.load(KB).env['nucfuncs'] = Nuc()
+
+    class Therm(object):
+        numElements = E + 1
+
+        def getGrowthAndInterfacialComposition(self, x, T, dG, R, gExtra, precPhase=None, removeCache=False, searchDir=None):
+            nb = R.shape[0]
+            return (array(ctx, 'g_%s' % precPhase, (nb,)), array(ctx, 'xa_%s' % precPhase, (nb, E)), array(ctx, 'xb_%s' % precPhase, (nb, E)),
+                    array(ctx, 'xea_%s' % precPhase, (E,)), array(ctx, 'xeb_%s' % precPhase, (E,)))
+    m.fields['therm'] = Therm()
+    m.fields['betaFuncType'] = 2
+    m.fields['_precBetaTemp'] = [None] * P
+    m.fields['temperatureParameters'] = type('TP', (), {'_isIsothermal': boolean(ctx, 'isothermal')})()
+    m.fields['_calcNucleationSites'] = lambda t, x, p: real(ctx, 'sites%d' % p, lambda v: v >= 0)
+    for p, prm in enumerate(m.fields['precipitateParameters']):
+        prm.shapeFactor.kineticFactor = (lambda R, p=p: array(ctx, 'kin%d' % p, R.shape, fact=lambda v, *i: v > 0))
+    m.fields['particleGibbs'] = lambda radius=None, phase=None: 'gibbs'
+    m.fields['growth'] = [array(ctx, 'prev_growth%d' % p, (m.fields['PBM'][p].bins + 1,)) for p in range(P)]
+    m.fields['_singleGrowthBinary'] = lambda p, Yb: array(ctx, 'gb%d' % p, (m.fields['PBM'][p].bins + 1,))
+    m.fields['_createLookupBinary'] = lambda T: (array(ctx, 'lxa', (1, P, E)), array(ctx, 'lxb', (1, P, E)))
+    comp0 = [Y.fields['composition'].get(0, e) for e in range(E)]
+    preY = snapshot(Y)
+    prePD = snapshot(pd)
+    x = [object() for _ in range(P)]
+    t = real(ctx, 't')
+    Y1 = m._calcNucleationRate(t, x, Y)
+    ctx.prove('nucleation/returns-the-same-record', Y1 is Y)
+    for k in BALANCE_FIELDS + ['xEqAlpha', 'xEqBeta']:
+        unchanged(ctx, 'nucleation/%s' % k, preY[k], Y.fields[k])
+    ctx.prove('nucleation/thermodynamics-queried-at-the-balance-composition', len(seen) == P and all(and_(*[eq(c[1].get(e) if isinstance(c[1], ArrBase) and c[1].ndim else c[1], comp0[e]) for e in range(E)]) is not False for c in seen))
+    frame(ctx, 'nucleation/history', pd, prePD, modifies=[])
+    ctx.prove('canary/nucleation-writes-nothing', eq(Y.fields['drivingForce'].get(0, 0), preY['drivingForce'].fn(0, 0)), expect='refuted')
+    if E >= 2:
+        growth, Y2 = m._growthRateMulti(Y)
+    else:
+        growth, Y2 = m._growthRateBinary(Y)
+    ctx.prove('growth/returns-the-same-record', Y2 is Y)
+    for k in BALANCE_FIELDS:
+        unchanged(ctx, 'growth/%s' % k, preY[k], Y.fields[k])
+    frame(ctx, 'growth/history', pd, prePD, modifies=[])
+
+
 # the balance holds at every RECORDED step only if the grid operations applied after the step's balance keep the particle
 # volume: re-mesh preserves the third moment, extension keeps the populated classes (contracts shared with C08)
 from . import c08 as _c08
